@@ -406,6 +406,8 @@ from . import mustcall
 
 from . import removals
 
+from . import vocab
+
 OBLIGATIONS = [
     ('C03.O1', 'status constructors', 'Predicted only from InputQueue::input (sticky prediction = predictor(newest real '
      'input) or default); Confirmed carries the stored input behind the frame equality; Disconnected carries the default.', o1),
@@ -424,4 +426,5 @@ OBLIGATIONS = [
     ('C03.C', 'lossy integer casts', 'every sign-changing cast (signed -> unsigned; NULL_FRAME is -1) and every narrowing cast to < 32 bits or from 128 bits in the crate is in range by a dominating guard, by the shape of its operand, or listed with a reason in tables/casts.json; see rules/casts.py', casts.rule),
     ('C03.M', 'must-call floor', 'the calls listed for this property in tables/must_call.json are made on every path from the entry of their function to a normal return (interprocedural must-call): a new early return, fast path or extra condition in front of one of them is reported; see rules/mustcall.py', mustcall.rule_for('C03')),
     ('C03.R', 'how map entries are written', 'every write into a map this property\'s rules rely on has the reviewed class (overwrite: the newest value for a key wins; keep-existing: the first one does) -- a local input submitted again before advancing replaces the pending one; see rules/removals.py, tables/removals.json', removals.rule_for('C03')),
+    ('C03.V', 'no unreviewed condition in the pinned helpers', 'for each helper whose body this property\'s rules pin (tables/condition_terms.json), the terms its path conditions are built from (fields, parameters, call results -- no constants, operators or local names) are a subset of the reviewed vocabulary: one more `if` in front of a pinned result (a lock that may time out, "only while an endpoint is running") is reported; see rules/vocab.py', vocab.rule_for('C03')),
 ]
